@@ -1,6 +1,8 @@
 //! `mc` — bounded exhaustive exploration of busstoptaktik/geodesy (see /verif/DESIGN.md)
 mod catalog;
 mod engine;
+mod geo;
+mod projs;
 mod props;
 mod util;
 
